@@ -390,7 +390,7 @@ func init() {
 // ---- cases
 
 type hCase struct {
-	Kind  string `json:"kind"` // trunc | sweep | field | havoc | session | single | rlefi | fill | sizshift | j2kamp
+	Kind  string `json:"kind"` // trunc | sweep | field | havoc | session | single | rlefi | fill | sofmatrix | sizshift | j2kamp
 	Seed  string `json:"seed,omitempty"`
 	From  int    `json:"from,omitempty"` // sweep/field: first offset
 	To    int    `json:"to,omitempty"`
@@ -436,6 +436,9 @@ func hostileBuild(id, tier string, seed uint64) []any {
 			cs = append(cs, &hCase{Kind: "rlefi", Seed: s.Name})
 		}
 		cs = append(cs, &hCase{Kind: "fill", Seed: s.Name})
+		if s.Family == "jpeg" {
+			cs = append(cs, &hCase{Kind: "sofmatrix", Seed: s.Name, N: map[bool]int{false: 3, true: 4}[th]})
+		}
 		if s.Family == "j2k" {
 			cs = append(cs, &hCase{Kind: "sizshift", Seed: s.Name})
 			// header-claimed work vs. data actually present: quick takes three seeds
@@ -968,6 +971,51 @@ func hostileExec(id string, measure bool, d any) mon.Result {
 					run(d, nil)
 					run(append(d, trailer...), nil)
 				}
+			}
+		}
+	case "sofmatrix":
+		// every combination of sampling factors in the frame header (also chroma sampled more
+		// densely than the first component, which no encoder here writes), on the whole stream, on
+		// the stream cut behind its frame header / behind its scan header (a frame without any
+		// entropy-coded data reaches the output conversion with empty component planes), and with
+		// small frame dimensions
+		inf, _ := ref.WalkJPEG(s.Data)
+		if inf == nil || inf.SOFOffset <= 0 || inf.SOFOffset+10 > len(s.Data) {
+			break
+		}
+		so := inf.SOFOffset
+		nf := int(s.Data[so+9])
+		sofEnd := so + 2 + (int(s.Data[so+2])<<8 | int(s.Data[so+3]))
+		if nf < 1 || nf > 4 || sofEnd > len(s.Data) || so+10+3*nf > len(s.Data) {
+			break
+		}
+		vals := []byte{1, 2, 4}
+		if c.N >= 4 {
+			vals = []byte{1, 2, 3, 4}
+		}
+		nv := len(vals) * len(vals)
+		total := 1
+		for i := 0; i < nf && i < 3; i++ {
+			total *= nv
+		}
+		eoi := []byte{0xFF, 0xD9}
+		dims := [][2]int{{-1, -1}, {1, 1}, {9, 17}, {16, 16}}
+		for combo := 0; combo < total; combo++ {
+			d := append([]byte(nil), s.Data...)
+			v := combo
+			for i := 0; i < nf && i < 3; i++ {
+				hv := v % nv
+				v /= nv
+				d[so+10+3*i+1] = vals[hv/len(vals)]<<4 | vals[hv%len(vals)]
+			}
+			dm := dims[combo%len(dims)]
+			if dm[0] >= 0 {
+				d[so+5], d[so+6], d[so+7], d[so+8] = byte(dm[0]>>8), byte(dm[0]), byte(dm[1]>>8), byte(dm[1])
+			}
+			run(d, nil)
+			run(append(append([]byte(nil), d[:sofEnd]...), eoi...), nil)
+			if s.Header > sofEnd && s.Header <= len(d) {
+				run(append(append([]byte(nil), d[:s.Header]...), eoi...), nil)
 			}
 		}
 	case "sizshift":
